@@ -134,6 +134,14 @@ def c12_vector(ctx):
     w.direction_from = U.Radian(-d)
     ctx.check_eq('edited_wind_acts_with_its_new_values', w.vector.z, -(s2 * M.sin(d)))
     ctx.check_eq('edited_wind_acts_with_its_new_values', w.vector.x, s2 * M.cos(d))
+    # the calm wind a wind-less shot reports is its own: editing it does not put wind on another wind-less shot
+    shot_a = p.Shot(None, None, atmo=_atmo(p))
+    wa = shot_a.winds[0]
+    wa.velocity = U.FPS(s + 1.0)
+    wa.direction_from = U.Radian(1.0)
+    for mk in (lambda: p.Shot(None, None, atmo=_atmo(p)), lambda: p.Shot(None, None, atmo=_atmo(p), winds=[]), lambda: p.Shot(None, None, atmo=_atmo(p), winds=None)):
+        wb = mk().winds
+        ctx.check('windless_shots_do_not_share_a_wind', len(wb) == 1 and (wb[0].velocity >> U.FPS) == 0 and wb[0] is not wa)
     # zero speed is no wind
     z = p.Wind(U.FPS(0.0), U.Radian(d)).vector
     ctx.check('zero_speed_is_zero_vector', z.x == 0 and z.y == 0 and z.z == 0)
@@ -152,7 +160,7 @@ def _cfg_fire(tier):
         [('C', 100.0, dict(relative_deg=2.0)), ('B', 60.0, dict()), ('A', 100.0, dict(look_deg=25.0)), ('A', 100.0, dict()), ('C', 100.0, dict(relative_deg=30.0)), ('A', 30.0, dict(look_deg=-15.0))]
     for (c, step, kw) in plan:
         rmax = K * step / 2 * 0.9
-        for n in ((2,) if tier == 'quick' else (2, 3)):
+        for n in ((1, 2) if tier == 'quick' else (1, 2, 3)):
             shards = 3 if tier == 'quick' else 6
             for i in range(shards):
                 out.append({'carrier': c, 'step_ft': step, 'kw': kw, 'n': n, 'rmax': rmax, 'ulo': rmax * i / shards, 'uhi': rmax * (i + 1) / shards})
